@@ -22,12 +22,22 @@ THEOREMS = [
     "c13_agrees_with_compare",
     "c13_monotone_strings",
     "c13_mode_follows_last_version",
+    "c13_reader_after_handshake",
+    "c13_reject_single_error_no_delivery",
+    "c13_accept_delivers_members",
+    "c13_bad_member_isolated",
+    "c13_single_messages_unaffected",
+    "c13_version_change_mid_connection",
 ]
 RULE = (
     "decision: every string dddd-dd-dd (all 10^4 month/day digit pairs) of the years 2015..2035 (quick) / 1990..2199 "
     "(thorough), real supports_batching and real ProtocolVersion.compare(v, '2025-06-18') vs the Lean model (guards + "
     "generated chain, and the generated chain on the integers); plus None, '', the supported versions, cutoff "
-    "neighbours, seeded well-formed strings of all years 0000..9999 and malformed strings; non-trivial = distinct string"
+    "neighbours, seeded well-formed strings of all years 0000..9999 and malformed strings; non-trivial = distinct string. "
+    "transport: the real StdioClient behind a scripted process: every batch of 0..4 members over "
+    "a 5-letter alphabet of valid / invalid members at a version without and with batching (exhaustive), every version of "
+    "{unset, None, '', supported versions, cutoff neighbours} x a mixed stream whole and cut, seeded connection histories of "
+    "1..4 segments with set_protocol_version between them; non-trivial = distinct history"
 )
 TRUSTED = ["Gen/Versions.lean regenerated from batching.py (if/elif chain of supports_batching) and versioning.py (SUPPORTED_VERSIONS)"]
 ASSUMPTIONS = [
@@ -208,4 +218,5 @@ class Decision(Suite):
 
 
 def suites():
-    return [Decision()]
+    from . import c13_transport
+    return [Decision()] + c13_transport.suites()
